@@ -23,6 +23,8 @@ func init() {
 			icb("del-vs-evict", 8, "2", 60), icb("del-vs-expire", 8, "2", 60), icb("del-vs-evict-pool", 8, "2", 60), icb("update-vs-evict", 8, "2", 60), icb("update-vs-expire", 8, "2", 60),
 		},
 		Thorough: []Scenario{
+			{Name: "C05/bfs-m1-3clients", Build: sched, Pkg: "internal", Test: "TestVerif_C05", Params: "cfg=m1,depth=13,clients=3,ops=2", Shards: 16, BudgetS: 600},
+			{Name: "C05/bfs-m1-ttl-3clients", Build: sched, Pkg: "internal", Test: "TestVerif_C05", Params: "cfg=m1-ttl,depth=10,clients=3,ops=2", Shards: 16, BudgetS: 600},
 			mk("m1", 16, "14", 600), mk("m1-ttl", 16, "11", 600), mk("m2-3c", 16, "11", 600), mk("m1-pool", 16, "14", 600), mk("m1-pool-ttl", 16, "11", 600), mk("m1-pool-reuse", 8, "13", 600),
 			icb("del-vs-evict", 16, "3", 900), icb("del-vs-expire", 16, "3", 900), icb("del-vs-evict-pool", 16, "3", 900), icb("update-vs-evict", 16, "3", 900), icb("update-vs-expire", 16, "3", 900),
 		},
